@@ -17,6 +17,7 @@ import (
 	"strconv"
 	"strings"
 	"sync"
+	"time"
 
 	"github.com/tychoish/fun/pubsub"
 	"verif/harness/rt"
@@ -51,7 +52,10 @@ func main() {
 			}
 			rt.Emit(map[string]any{"begin": in.N})
 			rt.Flush()
-			rt.Emit(replay(in))
+			t0 := time.Now()
+			out := replay(in)
+			out["us"] = time.Since(t0).Microseconds() // diagnostics only, never used for a verdict
+			rt.Emit(out)
 			rt.Flush()
 		})
 	case "record":
